@@ -14,6 +14,7 @@
 #include <veriblock/pop/base58.hpp>
 #include <veriblock/pop/base59.hpp>
 #include <veriblock/pop/consts.hpp>
+#include <veriblock/pop/ct_params.hpp>
 #include <veriblock/pop/entities/address.hpp>
 #include <veriblock/pop/entities/altblock.hpp>
 #include <veriblock/pop/entities/atv.hpp>
@@ -154,6 +155,32 @@ static Tree dump(const VTB&);
 static void load(const Tree&, VTB&);
 static Tree dump(const PopData&);
 static void load(const Tree&, PopData&);
+static Tree dump(const AltBlock& b) { return rec({tb(b.hash), tb(b.previousBlock), tz(b.height), tu(b.timestamp)}); }
+static void load(const Tree& t, AltBlock& b) {
+  need(t, 'R', 4);
+  b.hash = bt(t.kids[0]);
+  b.previousBlock = bt(t.kids[1]);
+  b.height = (int32_t)zt(t.kids[2]);
+  b.timestamp = (uint32_t)ut(t.kids[3]);
+}
+static Tree dump(const KeystoneContainer& k) { return rec({tb(k.firstPreviousKeystone), tb(k.secondPreviousKeystone)}); }
+static void load(const Tree& t, KeystoneContainer& k) {
+  need(t, 'R', 2);
+  k.firstPreviousKeystone = bt(t.kids[0]);
+  k.secondPreviousKeystone = bt(t.kids[1]);
+}
+static Tree dump(const ContextInfoContainer& c) { return rec({tz(c.height), dump(c.keystones)}); }
+static void load(const Tree& t, ContextInfoContainer& c) {
+  need(t, 'R', 2);
+  c.height = (int32_t)zt(t.kids[0]);
+  load(t.kids[1], c.keystones);
+}
+static Tree dump(const AuthenticatedContextInfoContainer& c) { return rec({dump(c.ctx), tb(c.stateRoot)}); }
+static void load(const Tree& t, AuthenticatedContextInfoContainer& c) {
+  need(t, 'R', 2);
+  load(t.kids[0], c.ctx);
+  c.stateRoot = uint256(bt(t.kids[1]));
+}
 
 static std::vector<uint8_t> addr_bytes(const Address& a) {
   std::vector<uint8_t> d;
@@ -554,7 +581,7 @@ static std::string witness_vtb() {
   X(MAX_POPDATA_VTB) X(MAX_POPDATA_ATV) X(MAX_PAYOUT) X(MIN_ALT_HASH_SIZE) X(MAX_ALT_HASH_SIZE) X(MAX_BTCADDON_REFS) \
   X(MAX_VBKPOPTX_PER_VBK_BLOCK) X(VTB_ID_SIZE) X(ATV_ID_SIZE) X(VBK_ID_SIZE) X(VBK_PUBLICATIONDATA_SIZE)            \
   X(VBK_HEADER_SIZE_VBLAKE) X(VBK_HEADER_SIZE_PROGPOW) X(MAX_LAYER_COUNT_MERKLE) X(MAX_OUTPUTS_COUNT)               \
-  X(MAX_SIGNATURE_SIZE) X(MAX_PUBLIC_KEY_SIZE) X(VBK_ADDRESS_SIZE) X(ADDRESS_POP_DATA_SIZE_PROGPOW)
+  X(MAX_SIGNATURE_SIZE) X(MAX_PUBLIC_KEY_SIZE) X(VBK_ADDRESS_SIZE) X(ADDRESS_POP_DATA_SIZE_PROGPOW) X(ALT_HASH_SIZE)
 static std::string consts() {
   std::string r;
 #define X(n) r += std::string(#n) + "=" + std::to_string((long long)(n)) + " ";
@@ -590,6 +617,10 @@ static std::string handle(const std::string& id, const std::string& op, const st
   if (t == "btcblockraw") return run<RawBtc>(id, op, a[1]);
   if (t == "vbkblock") return run<VbkBlock>(id, op, a[1]);
   if (t == "vbkblockraw") return run<RawVbk>(id, op, a[1]);
+  if (t == "altblock") return run<AltBlock>(id, op, a[1]);
+  if (t == "keystones") return run<KeystoneContainer>(id, op, a[1]);
+  if (t == "ctxinfo") return run<ContextInfoContainer>(id, op, a[1]);
+  if (t == "authctx") return run<AuthenticatedContextInfoContainer>(id, op, a[1]);
   if (t == "merklepath") return run<MerklePath>(id, op, a[1]);
   if (t == "vbkmerklepath") return run<VbkMerklePath>(id, op, a[1]);
   if (t == "pubdata") return run<PublicationData>(id, op, a[1]);
